@@ -525,7 +525,7 @@ Subscribe ==
 Next ==
   IF InWindow
   THEN \/ \E s \in Subs : SubRegister(s)
-       \/ Window /\ ( (\E c \in {"empty", "fresh"} : Store(c)) \/ SyncSend \/ (\E f \in {"h", "r"} : TeeForward(f))
+       \/ Window /\ ~QuietSub /\ ( (\E c \in {"empty", "fresh"} : Store(c)) \/ SyncSend \/ (\E f \in {"h", "r"} : TeeForward(f))
                       \/ ((\A s \in Subs : sub[s].st = "resolved" => sub[s].kind = "heads") /\ Revert) )
   ELSE Env \/ Internal \/ Client \/ Subscribe
 
@@ -606,9 +606,10 @@ FoldHeads(q, i, st) ==
                                       !.view = Append(@, f.a)])
     ELSE IF f.k = "reorg" THEN
       IF st.view = <<>> THEN FoldHeads(q, i + 1, [st EXCEPT !.base = IF f.a < @ THEN f.a ELSE @])
-      ELSE IF f.a < st.base THEN FoldHeads(q, i + 1, [st EXCEPT !.ok = (f.c = top /\ f.d = st.view[Len(st.view)]), !.view = <<>>, !.base = f.a])
-      ELSE FoldHeads(q, i + 1, [st EXCEPT !.ok = /\ f.a <= top /\ f.c = top
-                                                  /\ st.view[f.a - st.base + 1] = f.b /\ f.d = st.view[Len(st.view)],
+      ELSE IF f.a > top THEN FoldHeads(q, i + 1, st)               \* blocks the client never held (it subscribed after the revert)
+      ELSE IF f.a < st.base THEN FoldHeads(q, i + 1, [st EXCEPT !.ok = (f.c >= top /\ (f.c = top => f.d = st.view[Len(st.view)])), !.view = <<>>, !.base = f.a])
+      ELSE FoldHeads(q, i + 1, [st EXCEPT !.ok = /\ f.c >= top /\ (f.c = top => f.d = st.view[Len(st.view)])
+                                                  /\ st.view[f.a - st.base + 1] = f.b,
                                           !.view = SubSeq(@, 1, f.a - st.base)])
     ELSE FoldHeads(q, i + 1, st)
 ClientView(s) == FoldHeads(got[s], 1, [ok |-> TRUE, view |-> <<>>, base |-> sub[s].start])
@@ -616,7 +617,7 @@ ClientView(s) == FoldHeads(got[s], 1, [ok |-> TRUE, view |-> <<>>, base |-> sub[
 HeadsViewOK == \A s \in Subs : (Active(s) /\ sub[s].kind = "heads") => ClientView(s).ok
 
 (* ... and the copy is complete whenever everything has been consumed *)
-Settled(s) == Idle(s) /\ CaughtUp /\ ~sub[s].canc /\ Len(got[s]) < MaxGot
+Settled(s) == Idle(s) /\ CaughtUp /\ reorg = NoR /\ ~sub[s].canc /\ Len(got[s]) < MaxGot
 HeadsComplete ==
   \A s \in Subs : (sub[s].kind = "heads" /\ Settled(s)) =>
      LET v == ClientView(s) IN v.ok /\ v.base <= Height + 1 /\ v.view = SubSeq(chain, v.base + 1, Len(chain))
